@@ -18,16 +18,25 @@ Property clauses and the theorems that carry them
 * all or nothing ..................... `actions_all_or_nothing`, `block_effects_only_from_successful_triggers`,
                                        `balances_all_or_nothing`
 * gas prepaid, per-block caps ........ `gas_limit_capped_and_prepaid`, `per_block_caps`, `executed_gas_is_stored_limit`,
-                                       `actions_run_within_prepaid_gas`, `exceeding_prepaid_gas_fails_as_a_whole`
+                                       `actions_run_within_prepaid_gas`, `exceeding_prepaid_gas_fails_as_a_whole`,
+                                       `executed_within_creators_prepaid_gas` (end to end: the limit run with is the one
+                                       the creating transaction of the history stored and paid),
+                                       `gas_limit_never_changes_after_creation`, `runs_exactly_the_triggers_that_fit`,
+                                       `stops_only_at_a_cap`; the documented cap of 5 ACTIONS is not enforced (the code
+                                       counts triggers): `per_block_action_cap_is_not_enforced_observation`,
+                                       `per_block_action_cap_partial`
 * creators' authority ................ `created_actions_signed_by_authorities`, `executed_actions_were_authorised`
 * exactly one place .................. `never_waiting_and_queued`, `never_queued_twice`, `place_only_moves_forward`,
+                                       `place_moves_only_along_the_life_cycle`,
                                        `gone_is_forever`, `listeners_exactly_registered`,
                                        `gas_limit_exactly_waiting_or_queued`
-* only the owner, only while waiting . `destroy_iff_owner_and_waiting`, `destroy_rejected_once_queued_or_gone`,
+* only the owner, only while waiting . `destroy_iff_owner_and_waiting`, `destroy_post_state`,
+                                       `destroy_moves_waiting_to_gone`, `destroy_rejected_once_queued_or_gone`,
                                        `gone_never_fires`
 * no starvation ...................... `head_always_fits`, `queued_trigger_runs_within_its_position`
 * supporting (not clauses of C17) ..... `begin_block_never_panics`, `end_block_never_panics_with_clean_buckets`
 * observations outside C17's clauses .. `…_observation` (see observations/C17.md)
+* genesis export/import of this store . `PvProofs.C18Trigger` (cited by C18)
 -/
 import PvProofs.Lemmas.TrigFit
 
@@ -784,8 +793,9 @@ theorem end_block_never_panics_with_clean_buckets (ops : List Op) (evs : List Ab
 
 /-! ## observations — outside C17's clauses; see observations/
 
-Three defects of the code that the model mirrors faithfully.  None breaks a clause of C17 (all of
-which are safety statements and still hold); they are recorded in `observations/C17.md`. -/
+Defects of the code that the model mirrors faithfully (a fourth, the action cap, is with the cap
+theorems above).  None of the three below breaks a clause of C17 (all of which are safety statements
+and still hold); they are recorded in `observations/C17.md`. -/
 
 /-- OBSERVATION, outside C17's clauses; see observations/ (x/trigger/keeper/event_detector.go:53-56, x/trigger/types/trigger.go:86): a
 `TransactionEvent` may be named like the block-height bucket.  The create transaction is accepted,
